@@ -15,13 +15,29 @@ from harness.vlib import Nat, cq, Raw
 RULE = ('case = (s_h, h, L) triple (numeric s_h, or s_h with Variable coefficients as the builders use) or (g, reference rows) '
         'for relative_coeff_vector; L rows permuted, extra rows added, rows removed (missing exponent) or perturbed by 2^-29 / '
         '2^-25; non-trivial = |s_h|>=2 and |h|>=2; distinct by input hash')
-TRUSTED = ['correspondence harness harness/props/c16.py', 'float arithmetic exact on half-integer exponents and small integer coefficients']
-ASSUMPTIONS = ['Model/SymCorr.v is hand written; tied by correspondence only',
-               'the 1e-8 exponent tolerance is modelled as the rational 10^-8']
+TRUSTED = ['correspondence harness harness/props/c16.py', 'translator harness/translator/symcorr_tr.py (Gen/GenSymCorr.v: loops/appends/conditionals structurally, three array statements through Model/SymCorrIdioms.v; Signomial product and constructor are calls to their models)', 'float arithmetic exact on half-integer exponents and small integer coefficients']
+ASSUMPTIONS = ['Model/SymCorr.v is hand written; tied by correspondence and, since the sixth session, by the translator: symbolic_correspondences.py is regenerated (Gen/GenSymCorr.v) and proved equal to it on every input',
+               'the exponent tolerance is regenerated from the source (10 ** -(decimal points + 1)) and proved to be the model\'s 10^-8']
 HEADER = ('From Coq Require Import List Bool Arith ZArith QArith.\n'
           'From SageVerif Require Import Model.Signomial Model.SolverForms Model.SymCorr Base.Corr.\n'
           'Definition res_eqb (a : result (list (list Q))) (b : option (list (list Q))) : bool :=\n'
           '  match a, b with Ok m, Some m2 => list_eqb (list_eqb Qeqb) m m2 | Err _, None => true | _, _ => false end.')
+
+
+GEN_HEADER = HEADER.replace('Model.SymCorr Base.Corr.', 'Model.SymCorr Model.SymCorrIdioms Gen.GenConsts Gen.GenSymCorr Base.Corr.')
+USES_TRANSLATOR = True
+
+
+def gen_suite(ctx, name, expr, eqb, in_ty, out_ty, cases, shard):
+    """the same cases against the function GENERATED from symbolic_correspondences.py (Gen/GenSymCorr.v): validates the idiom table"""
+    mism, err = vlib.run_suite_in_coq(ctx.pid, name, GEN_HEADER, expr, eqb, in_ty, out_ty, [(c[1], c[2]) for c in cases], shard=shard)
+    ctx.suites[name] = {'cases': len(cases), 'mismatches': None if mism is None else len(mism)}
+    if err:
+        ctx.problem('correspondence', 'suite %s: %s' % (name, err))
+    else:
+        for idx in mism[:2]:
+            ctx.problem('correspondence', 'suite %s: the function generated from symbolic_correspondences.py and the implementation disagree on %s; impl=%s'
+                        % (name, cases[idx][0], cases[idx][2][:300]), inputs={'suite': name, 'input': cases[idx][0]}, failing_input_found=False)
 
 
 def mods():
@@ -254,6 +270,8 @@ def run(ctx):
             ctx.problem('correspondence', 'suite mra: model and implementation disagree on %s; impl=%s model=%s; oracle: %s'
                         % (cases[idx][0], cases[idx][2][:400], model_out[:400], why or 'identity holds on this input'),
                         inputs={'suite': 'mra', 'input': cases[idx][0], 'property_failure': why}, failing_input_found=bool(why))
+    gen_suite(ctx, 'mra_generated', "fun x => let '(sy, n, s, h, L) := x in gen_moment_reduction_array sy n s h L", 'res_eqb',
+              'bool * nat * qsig * qsig * qsig', 'option (list (list Q))', cases, 200)
     why, _ = oracle_decimal(ctx.rng)
     ctx.suites['decimal_exponents'] = {'cases': 12, 'failure': why}
     ctx.evaluations += 12
@@ -303,6 +321,9 @@ def run(ctx):
             ctx.problem('correspondence', 'suite rcv: model and implementation disagree on %s; impl=%s; oracle: %s'
                         % (rc[idx][0], rc[idx][2][:300], why), inputs={'suite': 'rcv', 'input': rc[idx][0], 'property_failure': why},
                         failing_input_found=bool(why))
+
+
+    gen_suite(ctx, 'rcv_generated', 'fun x => gen_relative_coeff_vector (fst x) (snd x)', 'list_eqb Qeqb', 'qsig * list qrow', 'list Q', rc, 250)
 
 
 def oracle_decimal(rng):
